@@ -171,6 +171,8 @@ structure CountE (sg : Nat) (st : St) : Prop where
   kinds : ∀ (i : Nat) (d : NodeDef), st.prog[i]? = some d → (st.rs.get i).kind = kindOf d
   nw : ∀ (i : Nat) (x : Expr), st.prog[i]? = some (NodeDef.eff x) → x.noWrite = true
   teff : ∀ e ∈ st.tasks, ∃ x : Expr, st.prog[e]? = some (NodeDef.eff x)
+  /-- the boundary's memo `errors_empty` over the register -/
+  pmemo : st.prog[sg + 1]? = some (NodeDef.memo (.ite (.rd true sg) (.lit 0) (.lit 1)))
 
 /-- a reactive step that writes no signal -/
 theorem CountE.of_sg {sg : Nat} {st : St} (h : CountE sg st) {rs' : State} (hs : SG st.rs rs') :
@@ -179,7 +181,7 @@ theorem CountE.of_sg {sg : Nat} {st : St} (h : CountE sg st) {rs' : State} (hs :
   refine ⟨⟨h.sig.psig, by show sg < rs'.nodes.length; rw [hs.len]; exact h.sig.lt,
     by show (rs'.get sg).kind = .sig; rw [hs.kind]; exact h.sig.ksig⟩, h.zomb,
     ⟨e, m, fb, k, hr, hl, hh, ?_⟩, fun i d hd => by show (rs'.get i).kind = _; rw [hs.kind]; exact h.kinds i d hd,
-    h.nw, h.teff⟩
+    h.nw, h.teff, h.pmemo⟩
   show envOf rs' sg = _
   simp only [envOf, hs.sig sg h.sig.ksig]
   exact hc
@@ -242,7 +244,8 @@ theorem rerun_count {sg : Nat} {st : St} (h : CountE sg st) (e : Nat) (w : Int) 
   refine ⟨⟨⟨by show ∃ v0, s1.prog[sg]? = _; rw [ht.prog]; exact h.sig.psig,
       by show sg < s1.rs.nodes.length; rw [ht.len]; exact h.sig.lt,
       by show (s1.rs.get sg).kind = .sig; rw [ht.kind]; exact h.sig.ksig⟩, rfl,
-    ⟨e', m, fb', k', rfl, hl', hh', hc'⟩, ?_, ?_, ?_⟩, ht.prog⟩
+    ⟨e', m, fb', k', rfl, hl', hh', hc'⟩, ?_, ?_, ?_, by show s1.prog[sg + 1]? = _; rw [ht.prog]; exact h.pmemo⟩,
+    ht.prog⟩
   · intro i d' hd
     show (s1.rs.get i).kind = _
     rw [ht.kind]
@@ -254,5 +257,101 @@ theorem rerun_count {sg : Nat} {st : St} (h : CountE sg st) (e : Nat) (w : Int) 
     rw [ht.tasks] at hy'
     obtain ⟨x, hx⟩ := h.teff y hy'
     exact ⟨x, by show s1.prog[y]? = _; rw [ht.prog]; exact hx⟩
+
+/-! ## polls and writes -/
+
+theorem bodyOf_effC {p : Prog} {e : Nat} {x : Expr} (h : p[e]? = some (NodeDef.eff x)) : bodyOf p e = x := by
+  simp only [bodyOf, h]
+
+theorem effLoop_count {sg : Nat} : ∀ (k : Nat) (st : St) (e : Nat), CountE sg st →
+    (∃ x : Expr, st.prog[e]? = some (NodeDef.eff x)) → CountE sg (effLoop k st e)
+  | 0, st, _, h, _ => h
+  | k + 1, st, e, h, he => by
+    obtain ⟨x, hx⟩ := he
+    simp only [effLoop]
+    split
+    · exact h
+    · have g1 : SG st.rs (st.rs.upd e fun n => { n with chan := false }) :=
+        SG.upd_val _ _ _ (fun _ => rfl) (fun _ => rfl)
+      generalize (st.rs.upd e fun n => { n with chan := false }) = rs1 at g1
+      have g2 := effUpdate_sg st.prog st.fuel { rs1 with obs := some e } e
+      generalize effUpdate st.prog st.fuel { rs1 with obs := some e } e = r at g2
+      obtain ⟨rs2, need⟩ := r
+      simp only at g2 ⊢
+      have g3 : SG st.rs { rs2 with obs := rs1.obs } :=
+        ((g1.trans (SG.setObs rs1 _)).trans g2).trans (SG.setObs rs2 _)
+      split
+      · -- the effect runs
+        have hk : (({ rs2 with obs := rs1.obs } : State).get e).kind ≠ .sig := by
+          rw [g3.kind e, h.kinds e _ hx]; simp [kindOf]
+        have g4 := runEffBody_sg st.prog st.fuel { rs2 with obs := rs1.obs } e
+          (by rw [bodyOf_effC hx]; exact h.nw e x hx) hk
+        have h4 := h.of_sg (g3.trans g4)
+        have hr := rerun_count h4 e
+          (((runEffBody st.prog st.fuel { rs2 with obs := rs1.obs } e).get e).val.getD 0)
+        exact effLoop_count k _ e hr.1 ⟨x, by rw [hr.2]; exact hx⟩
+      · exact effLoop_count k _ e (h.of_sg g3) ⟨x, hx⟩
+
+theorem pollTask_count {sg : Nat} {st : St} (h : CountE sg st) {e : Nat}
+    (he : ∃ x : Expr, st.prog[e]? = some (NodeDef.eff x)) : CountE sg (pollTask st e) := by
+  unfold pollTask
+  have g1 : SG st.rs (st.rs.upd e fun n => { n with woken := false }) :=
+    SG.upd_val _ _ _ (fun _ => rfl) (fun _ => rfl)
+  generalize (st.rs.upd e fun n => { n with woken := false }) = rs1 at g1
+  simp only
+  split
+  · -- the task ends; nothing is held for it
+    have g2 : SG st.rs (rs1.upd e fun n => { n with done := true }) :=
+      g1.trans (SG.upd_val _ _ _ (fun _ => rfl) (fun _ => rfl))
+    have h2 := h.of_sg g2
+    unfold releaseZombie
+    have hz : st.zombies = [] := h.zomb
+    simp only [hz, List.filter_nil, List.foldl_nil]
+    exact ⟨⟨h2.sig.psig, h2.sig.lt, h2.sig.ksig⟩, rfl, h2.tree, h2.kinds, h2.nw, h2.teff, h2.pmemo⟩
+  · exact effLoop_count 64 _ e (h.of_sg g1) he
+
+theorem pollNth_count {sg : Nat} {st : St} (h : CountE sg st) (i : Nat) : CountE sg (pollNth st i) := by
+  unfold pollNth
+  simp only
+  split
+  · exact h
+  · next hne =>
+    have hm : (ready st).getD (i % (ready st).length) 0 ∈ ready st :=
+      getD_mem_of_ne_nil (by simpa using hne) i
+    have ht : (ready st).getD (i % (ready st).length) 0 ∈ st.tasks := (List.mem_filter.1 hm).1
+    exact pollTask_count h (h.teff _ ht)
+
+theorem runIdle_count {sg : Nat} : ∀ (k : Nat) (st : St), CountE sg st → CountE sg (runIdle k st)
+  | 0, _, h => h
+  | k + 1, st, h => by
+    simp only [runIdle]
+    split
+    · exact h
+    · exact runIdle_count k _ (pollNth_count h 0)
+
+/-- a write to any other signal -/
+theorem setSig_count {sg : Nat} {st : St} (h : CountE sg st) (id : Nat) (v : Int) (hne : id ≠ sg) :
+    CountE sg (setSig st id v) := by
+  unfold setSig
+  simp only [Reactive.step]
+  cases hp : st.prog[id]? with
+  | none => exact h
+  | some d =>
+    cases d with
+    | memo b => exact h
+    | eff b => exact h
+    | sig v0 =>
+      simp only
+      have hk : (st.rs.get id).kind ≠ .eff := by rw [h.kinds id _ hp]; simp [kindOf]
+      have hsk := setSignal_sk (X := fun _ => False) (fuelFor st.prog) st.rs id v hk
+      obtain ⟨e, m, fb, k, hr, hl, hh, hc⟩ := h.tree
+      refine ⟨⟨h.sig.psig, by show sg < (setSignal _ _ _ _).nodes.length; rw [hsk.len]; exact h.sig.lt,
+        by show ((setSignal _ _ _ _).get sg).kind = .sig; rw [hsk.kind]; exact h.sig.ksig⟩, h.zomb,
+        ⟨e, m, fb, k, hr, hl, hh, ?_⟩,
+        fun i d hd => by show ((setSignal _ _ _ _).get i).kind = _; rw [hsk.kind]; exact h.kinds i d hd,
+        h.nw, h.teff, h.pmemo⟩
+      show envOf (setSignal _ _ _ _) sg = _
+      simp only [envOf, setSignal_val_ne _ _ _ _ _ (Ne.symm hne)]
+      exact hc
 
 end Leptos.RView
